@@ -28,6 +28,12 @@ CBB = "stun_rs::common::check_buffer_boundaries"
 
 
 def upper(name):
+    m0 = re.match(r"(?:num|usize|u64|u32)::from\((.*)\)$|(?:T|u16|u8)::into\((.*)\)$", name)
+    if m0:
+        return upper(m0.group(1) or m0.group(2))     # a lossless integer conversion keeps the bound
+    mw = re.match(r"u(8|16|32)::from_be_bytes\(", name)
+    if mw:
+        return (1 << int(mw.group(1))) - 1          # the width is in the name
     m = re.match(r"(?:num|u\d+)::from_be_bytes\(array\((.*)\)\)$", name)
     if m and not name.startswith("len("):
         k = m.group(1).count(", ") + 1          # an integer assembled from k bytes
@@ -127,11 +133,10 @@ def r3_5_iterator(ctx, prog, rule="R3.5"):
                 w.prove("contract: returned size <= len(buffer)", LP.add(w.L.len_lin("top:buffer"), w.L.lin(size), -1))
                 attr = val[1]
                 vt = attr[2] if isinstance(attr, tuple) and len(attr) == 3 else None
-                if isinstance(vt, tuple) and len(vt) == 2 and vt[1] in (".some.*", ".some", ".0.*"):
-                    vt = vt[0]          # the Some payload of buffer.get(4..size)
-                vt = LP.strip(vt)
-                okv = isinstance(attr, tuple) and attr[0] == "RawAttribute" and isinstance(vt, tuple) and len(vt) == 3 and \
-                    isinstance(vt[0], str) and re.search(r"(^|::)(index|get)$", vt[0]) and vt[1] == "top:buffer" and vt[2] == ("Range", 4, size)
+                # the value is the view buffer[4..size], however it is sliced (index, get, split_at halves, nested)
+                root, lo, hi = w.L.view(vt) if vt is not None else (None, None, None)
+                okv = isinstance(attr, tuple) and attr[0] == "RawAttribute" and root == "top:buffer" and \
+                    w.prove_eq("value starts at 4", LP.add(lo, {1: -4})) and w.prove_eq("value ends at the returned size", LP.add(hi, w.L.lin(size), -1))
                 if not okv:
                     w.failed.append("value is not buffer[4..size]: %s" % show(attr)[:80])
         ctx.ob(rule, "RawAttribute::decode:%s" % ("Ok" if _ok(r) else "Err:%d" % len(pa.calls)), not w.failed,
@@ -156,8 +161,9 @@ def r3_5_iterator(ctx, prog, rule="R3.5"):
             else:
                 w.prove("contract: returned size >= 20", LP.add(w.L.lin(size), {1: -20}))
                 w.prove("contract: returned size <= len(buffer)", LP.add(w.L.len_lin("top:buffer"), w.L.lin(size), -1))
-                at = LP.strip(msg[2])
-                if not (LP.is_index(at) and at[1] == "top:buffer" and at[2] == ("Range", 20, size)):
+                root, lo, hi = w.L.view(msg[2])
+                if not (root == "top:buffer" and w.prove_eq("attributes start at 20", LP.add(lo, {1: -20})) and
+                        w.prove_eq("attributes end at the returned size", LP.add(hi, w.L.lin(size), -1))):
                     w.failed.append("attributes is not buffer[20..size]: %s" % show(msg[2])[:80])
         ctx.ob(rule, "RawMessage::decode:%s" % ("Ok" if _ok(r) else "Err:%d" % len(pa.calls)), not w.failed,
                ("NOT proved: " + "; ".join(w.failed[:3])) if w.failed else "%d obligations proved" % w.n, info["where"],
